@@ -97,7 +97,11 @@ def build_net(spec):
     old = nsm.__dict__.get("default")
     try:
         nsm.default = spec.get("policy", "DEFAULT")
-        nl = gen.gen_netlist(rng, data=False, n_libs=(1, 3), unnamed_frac=spec.get("unnamed", 0.0))
+        if spec.get("size") == "large":
+            nl = gen.gen_netlist(rng, data=False, n_libs=(2, 4), n_leaf=(2, 5), n_mid=(3, 7), max_children=6,
+                                 max_ports=5, unnamed_frac=spec.get("unnamed", 0.0))
+        else:
+            nl = gen.gen_netlist(rng, data=False, n_libs=(1, 3), unnamed_frac=spec.get("unnamed", 0.0))
     finally:
         if had:
             nsm.default = old
@@ -375,9 +379,16 @@ def h_key(w, x, hid_, roots_paths):
     processing order, i.e. reversed argument order) that contains it"""
     h = w.hobjs[hid_ - 100000]
     path = [w.oid(e) for e in w.hpath(h)]
+    recursive = x.get("opts", {}).get("recursive", False)
+    ipath = [i for i in path if w.kind[i] == "instance"]
     for rp in roots_paths:
         if len(path) > len(rp) and path[:len(rp)] == rp:
-            return hname_rel(w, h, len(rp))
+            if x["fn"] == "get_hinstances":
+                direct = len(path) == len(rp) + 1
+            else:
+                direct = ipath == rp
+            if recursive or direct:
+                return hname_rel(w, h, len(rp))
     return None
 
 
@@ -568,7 +579,8 @@ class Case:
             else:
                 drop = sorted(i for i in ids if i % 3 == 0)
         return {"fn": "stage", "variant": self.variant, "cfg": self.cfg(is_case, is_re, fast), "keyed": self.keyed,
-                "groups": self.groups, "others": self.others, "bypass": self.bypass, "pats": list(pats), "drop": drop}
+                "groups": self.groups, "others": self.others, "bypass": self.bypass, "pats": list(pats), "drop": drop,
+                "base": sorted(set(self.base))}
 
 
 def dedup(l):
@@ -711,6 +723,11 @@ def classify(case, pats, is_case, is_re, fast, got):
     else:
         atoms = ["nocase"]
     got = sorted(got)
+    try:
+        if pinned_expected(case, pats, is_case, is_re, fast, set()) == got:
+            return None     # the defect-free mirror gives this result too: no known defect is *needed* to explain it
+    except Exception:
+        return None
     for n in (1, 2, 3):
         for sub in itertools.combinations(atoms, n):
             if "multiroot" in sub and "multiroot+forcegate" in sub:
@@ -1106,7 +1123,7 @@ def shard_worker(seed, tier, si, nshards, budget_s, net_specs, per_net):
                         report(res, runner, w, "spec", sig, xi, {"impl": sorted(case.base)})
                     else:
                         for sg in sig:
-                            res.spec_failure(sg, xi, "")
+                            res.dist("repeat:" + sg)
                 if case.fn in NOPAT_FNS:
                     combos = [(["*"], True, False, "nopattern")]
                 else:
@@ -1131,13 +1148,32 @@ def shard_worker(seed, tier, si, nshards, budget_s, net_specs, per_net):
                         x["net"] = ns
                         key = (kind.split("+")[0], tuple(sig or ()))
                         if key in reported and kind != "corr":
+                            # one (shrunk) record per failure class and shard; repeats are only counted, so
+                            # that the per-shard cap on records can never hide a different failure
                             for sg in sig:
-                                res.spec_failure(sg, x, "")
-                            if kind == "spec+corr":
-                                res.corr_mismatch("stage correspondence (" + x["fn"] + ")", x, signature=sig[0])
+                                res.dist("repeat:" + sg)
                         else:
                             reported.add(key)
                             report(res, runner, w, kind, sig, x, detail)
+                        if kind == "corr":
+                            # model and implementation disagree although P holds here: search the
+                            # neighbourhood (same roots / options / key, many more pattern lists, both
+                            # lookup settings) for an input on which P itself fails
+                            res.dist("corr_neighbourhood_search")
+                            for _ in range(25):
+                                for pats2, ic2, ir2, _f in gen_patterns(case, rng):
+                                    for fast2 in (True, False):
+                                        try:
+                                            r2 = runner.check(case, pats2, ic2, ir2, fast2, "none")
+                                        except Exception:
+                                            r2 = None
+                                        if r2 is not None and r2[0] != "corr":
+                                            x2 = input_of(case, pats2, ic2, ir2, fast2, "none")
+                                            x2["net"] = ns
+                                            k2 = (r2[0].split("+")[0], tuple(r2[1] or ()))
+                                            if k2 not in reported:
+                                                reported.add(k2)
+                                                report(res, runner, w, r2[0], r2[1], x2, r2[2])
                         continue
                     if case.fn in NOPAT_FNS:
                         continue
@@ -1161,7 +1197,7 @@ def shard_worker(seed, tier, si, nshards, budget_s, net_specs, per_net):
                                 key = (kind.split("+")[0], tuple(sig or ()))
                                 if key in reported and kind != "corr":
                                     for sg in sig:
-                                        res.spec_failure(sg, xi, "")
+                                        res.dist("repeat:" + sg)
                                 else:
                                     reported.add(key)
                                     report(res, runner, w, kind, sig, xi, det)
@@ -1228,6 +1264,9 @@ def run(ctx):
     ctx.partial_notes = []
     if not ok:
         return
+    if ctx.tier == "thorough" and not ctx.replay:
+        lean.leanchecker(ctx, ["Spydr.Query.Model", "Spydr.Query.Spec", "Spydr.Query.Lemmas", "Spydr.Query.LemmasStage",
+                               "Spydr.Query.Props.C13"])
     drv = None
     if ctx.replay:
         res = shard.ShardResult()
@@ -1249,9 +1288,9 @@ def run(ctx):
     if paths:
         ctx.merge_shard(corpus_worker(paths))
     nshards = 16
-    nets_per_shard = ctx.scale(6, 60)
-    per_net = ctx.scale(14, 40)
-    budget = ctx.scale(55, 900)
+    nets_per_shard = ctx.scale(40, 600)
+    per_net = ctx.scale(16, 30)
+    budget = ctx.scale(60, 1000)
     args = []
     for si in range(nshards):
         rng = ctx.rng("shard", si)
@@ -1262,7 +1301,8 @@ def run(ctx):
                 specs.append({"kind": "edif", "name": rng.choice(EDIF_EXAMPLES)})
             else:
                 specs.append({"kind": "gen", "seed": rng.randrange(10 ** 9), "policy": "EDIF" if r < 0.4 else "DEFAULT",
-                              "unnamed": 0.15 if rng.random() < 0.25 else 0.0})
+                              "unnamed": 0.15 if rng.random() < 0.25 else 0.0,
+                              "size": "large" if rng.random() < 0.2 else "small"})
         args.append((ctx.seed, ctx.tier, si, nshards, budget, specs, per_net))
     shard.run_shards(ctx, shard_worker, args)
     # failing-input search when only the correspondence / an obligation broke is inherent here: every
